@@ -87,6 +87,11 @@ register("C12", "TLA+ crash/restart model of the history backup checked by TLC (
          "Trusted: TLC, h5py durability of completed writes, os._exit as the crash model (inside Discipline._run only). Restart uses load=True and reset_iteration_counters=False. An existing file with neither load nor erase is outside the documented usage and not exercised. eachIter exactness is at the option's granularity (DESIGN.md C12 note).",
          "DESIGN.md section 4 C12")
 
+register("C20", "TLA+ two-world (original / restored copy) model of serialisation with heap cells per attribute (cache, counters, grammar defaults, data, settings) and persistent HDF files, checked by TLC (one-step bisimulation after Pickle, no sharing, counters by value, file attachment); transition tours replayed on 57 factory classes x cache kinds x grammar kinds with pickle / to_pickle / a second interpreter",
+         "TLC checks SameBehaviour (after Pickle every action has the same enabledness, return and successor in both worlds, at every prefix depth), NoSharing (an action on one world leaves the other's cells unchanged), CountersByValue and StaysAttached on every prefix.Pickle.suffix behaviour of 9 configurations, and refutes projections that share or drop an attribute (non-vacuity); tours of the dumped graphs are replayed on every constructible class of the discipline and MDA factories (57 of 62; skipped ones listed with the reason), scenarios, functions, problems and design spaces, projecting both real objects after every step and comparing with the TLC successor; a never-pickled twin arbitrates deviations that are not due to serialisation.",
+         "Trusted: TLC; pickle/to_pickle/subprocess round trips. Scenarios only in the 'stateful' configuration; surrogate/ODE disciplines not with simple grammars. D11 (two HDF5Cache objects on one node have stale indexes) is a recorded finding (no small repair).",
+         "DESIGN.md section 4 C20, 9.4")
+
 ALL = [f"C{i:02d}" for i in range(1, 21)]
 
 
